@@ -98,3 +98,8 @@ Proof.
   intros ord s u0 es st o0 ua ec es' ed er Hw Hnr Hst Hp Hu Hun Hd Hne.
   rewrite <- (code_rollback ord st o0 u0 ua ec es' ed er Hu Hun Hd Hne). eapply rollback_after_all; eauto.
 Qed.
+
+(* get_formula_value saves and restores the checkpoint AND docmodel._auto_remove_set around every evaluation, whatever
+   its arguments (regenerated from /repo on every run; seeded C29-3 makes the save conditional) *)
+Theorem C29_bridge_get_formula_value : gen_get_formula_value = model_get_formula_value.
+Proof. exact bridge_get_formula_value. Qed.
